@@ -160,12 +160,35 @@ theorem C06_clean_done_closed (G : UCFG U) (fuel : Nat) (st : CleanSt U)
     (∀ c ∈ st.done, c.2 ∈ st.reached) :=
   CL.clean_done_closed G fuel st h
 
-/-- `from_DFTA` with its default `clean=True`: the language is still the automaton's. -/
+/-- `from_DFTA` with its default `clean=True`: the language is still the automaton's, and every
+    accepted program still has exactly one derivation, the others none. -/
 theorem C06_clean_fromDFTA_partial (d : Q → UNT U) (A : DFTA Sym Q) (hd : A.Det) (hinj : InjOn d A)
     (G : UCFG U) (h : fromDFTA d A = some G) (hK : ∀ k ∈ AList.keys G.rules, k.1 ≠ Ty.unknown)
     (fuel : Nat) (Gc : UCFG U) (hc : clean G fuel = some Gc) (t : Prog) :
-    contains Gc t = A.accepts t := by
-  rw [C06_clean_lang G hK fuel Gc hc t, C06_lang_partial d A hd hinj G h t]
+    contains Gc t = A.accepts t ∧
+    (reduceAll Gc t).length = (if A.accepts t = true then 1 else 0) := by
+  have hl : contains Gc t = A.accepts t := by
+    rw [C06_clean_lang G hK fuel Gc hc t, C06_lang_partial d A hd hinj G h t]
+  refine ⟨hl, ?_⟩
+  have hlen := congrArg List.length (reduceAll_derivs Gc t)
+  simp only [List.length_map] at hlen
+  rw [hlen]
+  have hle := CL.clean_allDerivs_le G fuel Gc hc t
+  rw [allDerivs_length (built_of_build _ A _ G h) (plainFlat_ok d A hinj) hd t] at hle
+  have hg : genU Gc t = A.accepts t := by rw [← contains_eq_genU]; exact hl
+  unfold genU at hg
+  cases ha : A.accepts t with
+  | false =>
+    rw [ha] at hle
+    simp only [Bool.false_eq_true, if_false] at hle ⊢
+    omega
+  | true =>
+    rw [ha] at hg hle
+    simp only [if_true] at hle ⊢
+    have : (allDerivs Gc t) ≠ [] := by
+      intro e; rw [e] at hg; simp at hg
+    have := List.length_pos_iff.mpr this
+    omega
 
 /-! ## with the Python state values and `__d2state__` -/
 
@@ -200,6 +223,34 @@ theorem C06_py_ngram_partial (fixed : Bool) (n : Int) (A : DFTA Sym PyVal) (hd :
   · exact ⟨C06_ngram_lang_partial n _ A hd (injOn_of_d2Injective fixed A hinj) fuel G h t,
       C06_ngram_unambiguous_partial n _ A hd (injOn_of_d2Injective fixed A hinj) fuel G h t⟩
   · cases h
+
+/-- on automata all of whose states are plain `(type, x)` pairs (the output of `__cfg2dfta__`,
+    hand-written automata) `__d2state__` is the identity, hence merges nothing: the hypothesis of
+    the theorems holds, for the code as it is and repaired -/
+theorem C06_plain_states_injective (fixed : Bool) (A : DFTA Sym PyVal)
+    (hp : ∀ q ∈ A.allStates, ∃ t x, q = PyVal.state t x) :
+    d2Defined fixed A = true ∧ d2Injective fixed A = true := by
+  have key : ∀ q ∈ A.allStates, ∃ t x, q = PyVal.state t x ∧ d2state fixed q = some (t, x) := by
+    intro q hq
+    obtain ⟨t, x, rfl⟩ := hp q hq
+    refine ⟨t, x, rfl, ?_⟩
+    unfold PyVal.state
+    rw [d2state]
+  constructor
+  · unfold d2Defined
+    simp only [List.all_eq_true]
+    intro q hq
+    obtain ⟨t, x, _, h⟩ := key q hq
+    rw [h]; rfl
+  · unfold d2Injective
+    simp only [List.all_eq_true, decide_eq_true_eq]
+    intro q hq q' hq' e
+    obtain ⟨t, x, rfl, h⟩ := key q hq
+    obtain ⟨t', x', rfl, h'⟩ := key q' hq'
+    unfold d2 at e
+    rw [h, h'] at e
+    simp only [Option.getD_some, Prod.mk.injEq] at e
+    rw [e.1, e.2]
 
 /-! ## `UCFG.from_CFG` (a deterministic grammar) -/
 
@@ -252,6 +303,12 @@ def rk : PyVal → Nat
 example : Acyclic plain := ⟨rk, by decide⟩
 example : ∃ G, fromDFTAPy false plain = some G ∧ programs G 10 = some 4 := ⟨_, rfl, by decide⟩
 
+example : ∀ q ∈ plain.allStates, ∃ t x, q = PyVal.state t x := by
+  have h : plain.allStates.all (fun q => [st 0, st 1, st 2, st 3].contains q) = true := by decide
+  intro q hq
+  have := List.all_eq_true.mp h q hq
+  simp only [List.contains_iff_mem, List.mem_cons, List.not_mem_nil, or_false] at this
+  rcases this with e | e | e | e <;> exact ⟨tInt, _, by rw [e]; rfl⟩
 example : ∃ G Gc, fromDFTAPy false plain = some G ∧ clean G 100 = some Gc ∧ Gc.rules.length = 4 ∧
     Gc.starts.length = 2 ∧ (∀ k ∈ AList.keys G.rules, k.1 ≠ Ty.unknown) :=
   ⟨_, _, rfl, rfl, by decide, by decide, by decide⟩
